@@ -14,17 +14,18 @@ PYEXACT = ['py/none', 'py/bool', 'py/str', 'py/unicode', 'py/bytes', 'py/int', '
            'py/list', 'py/tuple', 'py/dict']
 PYPREFIX = ['py/name:', 'py/module:', 'py/object:', 'py/object/new:', 'py/object/apply:']
 LOOKALIKE = ['py/name', 'py/', 'py/objectx:', 'py/object/applyx:', 'lpy/object/apply:', 'unknown', 'local']
-ALLNAMES = ['res', 'rescls', 'noattr', 'lazy', 'builtin', 'unimp', 'unimpsub', 'missing']
+ALLNAMES = ['res', 'rescls', 'noattr', 'lazy', 'builtin', 'unimp', 'unimpsub', 'missing', 'iter', 'subunimp']
 
 BASETEXT = {b: Y + b for b in CORE12 + REPO3 + ['unknown']}
 BASETEXT.update({b: Y + 'python/' + b[3:] for b in PYEXACT + PYPREFIX + ['py/name', 'py/', 'py/objectx:', 'py/object/applyx:']})
 BASETEXT.update({'lpy/object/apply:': '!python/object/apply:', 'local': '!foo'})
 NAMETEXT = {'res': 'verif_canary.fire', 'rescls': 'verif_canary.Obj', 'noattr': 'verif_canary.nosuch',
             'lazy': 'verif_canary.lazyattr', 'builtin': 'vcanary_bfire', 'unimp': 'verif_unimported.fire',
-            'unimpsub': 'verif_unimp_pkg.sub.fire', 'missing': 'verif_no_such_mod.fire', 'e': ''}
+            'unimpsub': 'verif_unimp_pkg.sub.fire', 'missing': 'verif_no_such_mod.fire', 'iter': 'verif_canary.ITER',
+            'subunimp': 'verif_pkg.plugin', 'e': ''}
 MODTEXT = {'res': 'verif_canary', 'rescls': 'verif_canary', 'noattr': 'verif_canary', 'lazy': 'verif_canary',
            'builtin': 'builtins', 'unimp': 'verif_unimported', 'unimpsub': 'verif_unimp_pkg.sub',
-           'missing': 'verif_no_such_mod', 'e': ''}
+           'missing': 'verif_no_such_mod', 'iter': 'verif_canary', 'subunimp': 'verif_pkg', 'e': ''}
 GOOD = {'null': '~', 'bool': 'yes', 'int': '12', 'float': '1.5', 'binary': 'aGk=', 'timestamp': '2001-01-01',
         'py/none': 'null', 'py/bool': 'true', 'py/bytes': 'aGk=', 'py/int': '7', 'py/long': '8', 'py/float': '2.5',
         'py/complex': '1+2j'}
@@ -163,10 +164,11 @@ class Instruments:
         self.yaml = yaml
         if CANARY_DIR not in sys.path:
             sys.path.insert(1, CANARY_DIR)
-        import verif_canary
+        import verif_canary, verif_pkg
         self.canary = verif_canary
+        self.pkg = verif_pkg
         builtins.vcanary_bfire = verif_canary.fire
-        self.attrs = {id(verif_canary.fire), id(verif_canary.Obj), id(verif_canary.LAZY)}
+        self.attrs = {id(verif_canary.fire), id(verif_canary.Obj), id(verif_canary.LAZY), id(verif_canary.ITER)}
         self.events = []
         self.on = False
         sys.addaudithook(self._hook)
@@ -282,6 +284,8 @@ class Instruments:
             eff.add(kind)
         for m in new:
             sys.modules.pop(m, None)
+        if 'plugin' in vars(self.pkg):              # the import machinery binds a loaded submodule on its package
+            del self.pkg.plugin
         ty = self.types(res) if st == 'ok' else []
         return {'st': st, 'ex': ex, 'ty': ty, 'eff': sorted(eff), 'imported': imported}
 
@@ -447,7 +451,7 @@ def run(v, pid, classes, configs, loader_names):
     allextra = sorted(set().union(*extra.values()))
     # vacuity guards: in the model the unsafe class does have effects, and without the named exemption the known
     # structural-use finding is a TLC counterexample
-    small = {'MaxNodes': 2, 'LeafBases': tla_set(['str', 'local', 'py/object/apply:']), 'ParentBases': tla_set(['map', 'seq']),
+    small = {'Kinds': tla_set(['s', 'q', 'm']), 'LeafKinds': tla_set(['s', 'q', 'm']), 'KeyFillers': tla_set(['k', 'M', 'V']), 'MaxNodes': 2, 'LeafBases': tla_set(['str', 'local', 'py/object/apply:']), 'ParentBases': tla_set(['map', 'seq']),
              'Names': tla_set(['res']), 'Vals': tla_set(['g', 'e']), 'MaxEntries': 1, 'MustChain': 'TRUE', 'ConvFail': '"err"'}
     for cfg, inv in (('MC_Construct_negctl1.cfg', 'UnsafeInert'), ('MC_Construct_negctl2.cfg', 'ConfinedStrict')):
         r = tlc.run('Construct', cfg=cfg, tag='%s_%s' % (pid, inv), timeout=600, constants=small, coverage=False, workers=4)
